@@ -1,6 +1,7 @@
 package main
 
 import (
+	"sort"
 	"fmt"
 	"go/token"
 	"go/types"
@@ -638,7 +639,8 @@ func (e *Exec) havocModifies(st, pre *State, env *Env, fc *FuncContract, ws *Wri
 		}
 		e.ctx.assumes["callee with modifies clause and call-outs: frame trusted from its own frame obligations"]++
 	}
-	for k, s := range keys {
+	for _, k := range sortedKeys(keys) {
+		s := keys[k]
 		m := e.ctx.family(st, k, s)
 		for _, l := range locs {
 			if l.key == k {
@@ -715,7 +717,7 @@ func (e *Exec) frameObligations(st *State, pos token.Pos) {
 			old = And(Le(ConstI(0, Ref), a), Lt(a, e.entry.refTop))
 		}
 		g := Imp(And(outside, old), Eq(e.ctx.mc.Read(final, a), e.ctx.mc.Read(initial, a)))
-		e.addObl("frame", k, "modifies: "+k+" unchanged outside the listed locations", e.fc.Props, st, g, pos)
+		e.addObl("frame", k+e.root().retEdge, "modifies: "+k+" unchanged outside the listed locations", e.fc.Props, st, g, pos)
 	}
 }
 
@@ -1055,7 +1057,7 @@ func (e *Exec) havocKeepGhost(st *State, why string) {
 		}
 	}
 	// immutable fields not read so far keep their (initial) value too: materialise them
-	for base := range e.C.Immutable {
+	for _, base := range sortedKeys(e.C.Immutable) {
 		for _, lf := range e.immutableFamilies(base) {
 			if _, ok := keep[lf.key]; !ok {
 				keep[lf.key] = e.ctx.family(st, lf.key, lf.sort)
@@ -1129,7 +1131,8 @@ func heldKey(addr *Term) string { return "held:" + addr.String() }
 // lockObligation: no mutex of this activation is held when control leaves to unknown code
 // (the callee may re-enter the library and take the same lock).
 func (e *Exec) lockObligation(st *State, why string) {
-	for k, v := range st.ghost {
+	for _, k := range sortedKeys(st.ghost) {
+		v := st.ghost[k]
 		if strings.HasPrefix(k, "held:") {
 			root := e.root()
 			root.counts["lockco:"+k]++
@@ -1259,4 +1262,15 @@ func (e *Exec) devirt(iv IfaceV, t types.Type) (PtrV, bool) {
 	// the wrapped pointer is nil exactly when the interface is
 	e.ctx.assume(And(Eq(Eq(ref, ConstI(0, Ref)), Eq(iv.ID, ConstI(0, Ref))), Le(ConstI(0, Ref), ref), Lt(ref, ConstI(staticBase, Ref))))
 	return PtrV{Kind: pObj, Addr: ref, T: obj.Type(), FirstClass: true}, true
+}
+
+// sortedKeys: map keys in a fixed order, so that fresh symbols are numbered and assertions
+// are ordered the same way on every run (solver run times depend on both).
+func sortedKeys[V any](m map[string]V) []string {
+	ks := make([]string, 0, len(m))
+	for k := range m {
+		ks = append(ks, k)
+	}
+	sort.Strings(ks)
+	return ks
 }
